@@ -30,18 +30,24 @@ pub fn fmt_vec(v: &[f64]) -> String {
 
 /// reference self-check by central finite differences; Some(message) if the reference looks wrong
 pub fn self_check(e: &Expr, x: &[f64], jet: &Jet, second: bool) -> Option<String> {
+    // a finite difference carries rounding noise of about eps * |f| / h on top of its
+    // truncation error; both are allowed for, so that only a wrong reference formula trips this
     let g = fd_gradient(e, x);
     for i in 0..x.len() {
-        if !close(g[i], jet.g[i], 2e-3, jet.gmag[i] + 1e-3) {
-            return Some(format!("reference gradient[{}] = {:e}, finite difference {:e}", i, jet.g[i], g[i]));
+        let h = 1e-6 * x[i].abs().max(1.0);
+        let tol = 2e-3 * (jet.gmag[i] + 1e-3) + 1e-13 * jet.vmag / h;
+        if !((g[i] - jet.g[i]).abs() <= tol) {
+            return Some(format!("reference gradient[{}] = {:e}, finite difference {:e} (tolerance {:e})", i, jet.g[i], g[i], tol));
         }
     }
     if second {
-        let h = fd_hessian(e, x);
+        let hm = fd_hessian(e, x);
         for i in 0..x.len() {
+            let h = 1e-5 * x[i].abs().max(1.0);
             for k in 0..x.len() {
-                if !close(h[i][k], jet.h[i][k], 2e-3, jet.hmag[i][k] + 1e-3) {
-                    return Some(format!("reference hessian[{}][{}] = {:e}, finite difference {:e}", i, k, jet.h[i][k], h[i][k]));
+                let tol = 2e-3 * (jet.hmag[i][k] + 1e-3) + 1e-13 * jet.gmag[k] / h;
+                if !((hm[i][k] - jet.h[i][k]).abs() <= tol) {
+                    return Some(format!("reference hessian[{}][{}] = {:e}, finite difference {:e} (tolerance {:e})", i, k, jet.h[i][k], hm[i][k], tol));
                 }
             }
         }
@@ -171,7 +177,7 @@ impl Property for C01 {
 
     fn plan(&self, tier: Tier) -> Vec<Stage<Case>> {
         use proptest::strategy::Strategy;
-        vec![Stage::random("programs", tier.pick(400_000, 6_000_000), || program().prop_map(|program| Case { program }))]
+        vec![Stage::random("programs", tier.pick(1_200_000, 40_000_000), || program().prop_map(|program| Case { program }))]
     }
 
     fn rule(&self) -> String {
@@ -179,7 +185,7 @@ impl Property for C01 {
     }
 
     fn floors(&self, tier: Tier) -> Vec<Floor> {
-        let min = tier.pick(100u64, 1000);
+        let min = tier.pick(300u64, 5000);
         let mut f = Vec::new();
         for op in ["add", "sub", "mul", "div"] {
             for form in ["ref.ref", "own.ref", "ref.own", "own.own"] {
